@@ -257,7 +257,9 @@ func c03Scenario(c c03Case, v *vlib.Verdict) {
 					if a.A%2 == 0 && cli2 != nil && len(x.Data) >= 8 {
 						copy(x.Data[4:8], cli2.ss.sessionID[:])
 					}
-					pre = append(pre, x)
+					// delivered AFTER the original: an unmodified genuine datagram that arrives first from another
+					// address is, by design, a roaming client (the peer address legitimately moves, see C15)
+					post = append(post, x)
 				}
 			case 8:
 				x := clone()
@@ -449,15 +451,19 @@ func c03Scenario(c c03Case, v *vlib.Verdict) {
 	if v.OK() && !destructive {
 		for _, e := range []*c03End{srvEnd, cliEnd} {
 			missing := 0
-			for _, n := range e.expected {
+			var which []string
+			for m, n := range e.expected {
 				missing += n
+				if n > 0 && len(which) < 4 {
+					which = append(which, fmt.Sprintf("writer %d seq %d size %d", m[5], binary.BigEndian.Uint16([]byte(m[6:8])), len(m)))
+				}
 			}
 			if missing > 0 {
 				sig := "C03:accepted-write-not-delivered"
 				if len(c.Script) > 0 {
 					sig = "C03:genuine-datagram-lost-to-unauthentic-traffic"
 				}
-				v.Failf(sig, "%s: %d written messages/chunks were never delivered although every genuine datagram reached it (script: %d non-destructive actions)", e.name, missing, len(c.Script))
+				v.Failf(sig, "%s: %d written messages/chunks were never delivered although every genuine datagram reached it (script: %d non-destructive actions); missing: %v; got %d messages", e.name, missing, len(c.Script), which, len(e.got))
 				break
 			}
 			// per-writer order on a faithful network with a single writer
